@@ -42,7 +42,9 @@ FormatAccessors == {"ResponseFormat", "ResponseFormatText", "ResponseFormatChars
 \* (not the one earlier calls were given, so its Authenticator field is still unset): what is reused hangs on the
 \* request value, not on the route value (seed C09-16)
 AuthAccessors == {"Authorize", "AuthorizeFresh"}
-Accessors == {"RouteInfo", "ContentType", "BindAndValidate", "ResetAuth"} \cup AuthAccessors \cup FormatAccessors
+\* BindAndValidateFresh: likewise BindAndValidate handed a freshly looked-up MatchedRoute value (seed C09-19)
+BindAccessors == {"BindAndValidate", "BindAndValidateFresh"}
+Accessors == {"RouteInfo", "ContentType", "ResetAuth"} \cup BindAccessors \cup AuthAccessors \cup FormatAccessors
 
 \* ResponseFormatCharset offers <<"text/plain; charset=utf-8">>: an offer is matched ignoring its parameters and
 \* returned (and remembered) exactly as offered
@@ -89,7 +91,7 @@ Call(in, m, a) ==
                    Res([m EXCEPT !.pr = <<in.cs, in.cu>>, !.sc = sc, !.authcalls = @ + AuthCallsOf(in)],
                        <<in.cs, in.cu>> \o sc, FALSE, FALSE)
               ELSE Res([m EXCEPT !.authcalls = @ + AuthCallsOf(in)], <<"err", "401">>, FALSE, TRUE)
-    [] a = "BindAndValidate" ->
+    [] a \in BindAccessors ->
          IF m.bound # << >> /\ MemoBound THEN Res(m, m.bound, TRUE, FALSE)
          ELSE LET o == BindOutcome(in, m)
                   ret == IF o.valid THEN <<"valid", IdOf(in), IF HasBody(in.op) THEN in.body ELSE NoneStr>> ELSE <<"invalid">>
@@ -104,7 +106,7 @@ MemoHit(m, a) ==
   \/ a = "ContentType" /\ m.ct # << >>
   \/ a \in FormatAccessors /\ m.fmt # << >>
   \/ a \in AuthAccessors /\ m.pr # << >>
-  \/ a = "BindAndValidate" /\ m.bound # << >>
+  \/ a \in BindAccessors /\ m.bound # << >>
 
 ReusedNotRecomputed(in, m, a) ==
   LET r == Call(in, m, a) IN
@@ -114,7 +116,7 @@ ReusedNotRecomputed(in, m, a) ==
                                  [] a = "ContentType" -> m.ct
                                  [] a \in FormatAccessors -> m.fmt
                                  [] a \in AuthAccessors -> m.pr \o m.sc
-                                 [] a = "BindAndValidate" -> m.bound)
+                                 [] a \in BindAccessors -> m.bound)
 
 CellsStable(in, m, a) ==
   LET n == Call(in, m, a).m IN
